@@ -5,6 +5,7 @@ import (
 	"go/constant"
 	"go/token"
 	"go/types"
+	"regexp"
 	"sort"
 	"strings"
 
@@ -164,7 +165,10 @@ func (r *Run) enterBlock(st *State, fr *Frame, to *ssa.BasicBlock) bool {
 			for _, oc := range outer {
 				e.obligationClause(st, fr, fmt.Sprintf("%s/loop:%s/preserve:%s", e.fnName[oc.fr.Fn], oc.cl.Words[0], oc.cl.Label()), oc.cl, r.outerVars(st, oc.fr))
 			}
-			r.checkLoopLocks(st, fr, li, "preserve")
+			if len(r.lockIfClauses(fr.Fn, li.Ordinal)) == 0 {
+				r.checkLoopLocks(st, fr, li, "preserve")
+			}
+			r.checkLockIf(st, fr, li, "preserve")
 			r.checkPendingDefers(st, fr, li, "preserve")
 			st.Done = true
 			return false
@@ -176,6 +180,7 @@ func (r *Run) enterBlock(st *State, fr *Frame, to *ssa.BasicBlock) bool {
 			e.obligationClause(st, fr, fmt.Sprintf("%s/loop:%s/entry:%s", e.fnName[oc.fr.Fn], oc.cl.Words[0], oc.cl.Label()), oc.cl, r.outerVars(st, oc.fr))
 		}
 		r.checkPendingDefers(st, fr, li, "entry")
+		r.checkLockIf(st, fr, li, "entry")
 		// remember lockset at loop head
 		st.Facts[fmt.Sprintf("looplocks:%s:%d", fname, li.Ordinal)] = locksKey(st.Locks)
 		r.havocLoop(st, fr, li)
@@ -190,6 +195,7 @@ func (r *Run) enterBlock(st *State, fr *Frame, to *ssa.BasicBlock) bool {
 		fr.Block = to
 		fr.PC = 0
 		r.injectPendingDefers(st, fr, li)
+		r.applyLockIf(st, fr, li)
 		return true
 	}
 	fr.Prev = from
@@ -304,6 +310,90 @@ func (r *Run) pendingDeferClauses(fn *ssa.Function, ord int) []*Clause {
 		}
 	}
 	return out
+}
+
+// lockIfClauses: `loop N lock-if MODE LOCKEXPR : cond` — at the head of loop N the lock is held (in MODE R|W) iff cond.
+func (r *Run) lockIfClauses(fn *ssa.Function, ord int) []*Clause {
+	b := r.e.cs.Funcs[r.e.fnName[fn]]
+	if b == nil {
+		return nil
+	}
+	var out []*Clause
+	for _, c := range b.All("loop") {
+		if len(c.Words) >= 4 && c.Words[0] == fmt.Sprintf("%d", ord) && c.Words[1] == "lock-if" {
+			out = append(out, c)
+		}
+	}
+	return out
+}
+
+func (r *Run) lockIfRef(st *State, fr *Frame, cl *Clause) (LockRef, LockMode, bool) {
+	e := r.e
+	x, err := parseSpec(cl.Words[3])
+	if err != nil {
+		e.fail("%v", err)
+		return LockRef{}, LockW, false
+	}
+	c := e.clauseCtx(st, fr, nil)
+	c.inLoop = true
+	key, ok := c.eval(x).V.(T)
+	if !ok {
+		e.fail("lock-if: not a lock expression: %s", cl.Words[3])
+		return LockRef{}, LockW, false
+	}
+	mode := LockW
+	if cl.Words[2] == "R" {
+		mode = LockR
+	}
+	return r.lockOf(st, key), mode, true
+}
+
+// checkLockIf: the conditional lock is held exactly when its condition says so (loop entry / back edge).
+func (r *Run) checkLockIf(st *State, fr *Frame, li *LoopInfo, what string) {
+	e := r.e
+	for _, cl := range r.lockIfClauses(fr.Fn, li.Ordinal) {
+		lr, mode, ok := r.lockIfRef(st, fr, cl)
+		if !ok {
+			continue
+		}
+		held := False
+		for _, l := range st.Locks {
+			if l.Key.S == lr.Key.S && l.Mode == mode {
+				held = True
+			}
+		}
+		cond := e.evalClause(st, fr, cl, nil)
+		e.emitWith(st, fmt.Sprintf("%s/loop%d/%s:lock-if-%s", e.fnName[fr.Fn], li.Ordinal, what, sanitize(cl.Words[3])), "", nil, Eq(cond, held),
+			"lock "+cl.Words[3]+" is held exactly when "+cl.Expr, e.framePos(fr), append([]string{"C11"}, cl.Props...), cl)
+	}
+}
+
+// applyLockIf: after the loop cut, split on the condition and set the lockset accordingly.
+func (r *Run) applyLockIf(st *State, fr *Frame, li *LoopInfo) {
+	e := r.e
+	for _, cl := range r.lockIfClauses(fr.Fn, li.Ordinal) {
+		lr, mode, ok := r.lockIfRef(st, fr, cl)
+		if !ok {
+			continue
+		}
+		drop := func(s *State) {
+			var ls []HeldLock
+			for _, l := range s.Locks {
+				if !(l.Key.S == lr.Key.S && l.Mode == mode) {
+					ls = append(ls, l)
+				}
+			}
+			s.Locks = ls
+		}
+		cond := e.evalClause(st, fr, cl, nil)
+		other := st.clone()
+		other.assume(Not(cond))
+		drop(other)
+		r.work = append(r.work, other)
+		st.assume(cond)
+		drop(st)
+		st.Locks = append(st.Locks, HeldLock{Class: lr.Class, Base: lr.Base, Key: lr.Key, Mode: mode})
+	}
 }
 
 func (r *Run) injectPendingDefers(st *State, fr *Frame, li *LoopInfo) {
@@ -442,6 +532,8 @@ func (r *Run) havocLoop(st *State, fr *Frame, li *LoopInfo) {
 			// the spawned body runs concurrently: its effects are interference, seen at lock acquisitions
 			regions["cnt:go"] = true
 		case ssa.CallInstruction:
+			cn := strings.ReplaceAll(e.calleeName(x.Common()), "github.com/joeycumines/go-bigbuff.", "")
+			regions["counter:calls:"+cn] = true
 			r.scanCallEffects(f, fn, x, binds, regions, &all, addCell, scanFn)
 		case *ssa.Send:
 			regions["chan."] = true
@@ -503,13 +595,26 @@ func (r *Run) havocLoop(st *State, fr *Frame, li *LoopInfo) {
 	}
 	sort.Strings(cks)
 	for _, k := range cks {
+		if strings.HasPrefix(k, "calls:") && !regions["counter:"+k] {
+			continue // nothing in the loop calls it
+		}
 		nv := e.freshConst("cnt", SInt)
 		st.assume(App(SBool, ">=", nv, st.Counters[k]))
 		st.Counters[k] = nv
 	}
 	for k := range st.Ghost {
-		if strings.HasPrefix(k, "arg:") || strings.HasPrefix(k, "res:") || k == "rand.last" || strings.HasPrefix(k, "lastsent:") || strings.HasPrefix(k, "lastrecv:") || strings.HasPrefix(k, "ires:") {
+		if strings.HasPrefix(k, "arg:") || strings.HasPrefix(k, "res:") || k == "rand.last" || strings.HasPrefix(k, "lastsent:") || strings.HasPrefix(k, "lastrecv:") {
 			delete(st.Ghost, k)
+		}
+		if strings.HasPrefix(k, "ires:") {
+			// result record of a named callee: stale only if the loop calls that callee again
+			nm := strings.TrimPrefix(k, "ires:")
+			if i := strings.LastIndex(nm, ":"); i >= 0 {
+				nm = nm[:i]
+			}
+			if regions["counter:calls:"+nm] {
+				delete(st.Ghost, k)
+			}
 		}
 		if strings.HasPrefix(k, "ctxerr.last:") && (regions["ctxerr.last"] || all) {
 			delete(st.Ghost, k)
@@ -571,6 +676,9 @@ func (r *Run) val(st *State, fr *Frame, v ssa.Value) Val {
 }
 
 func (e *Engine) funcValue(fn *ssa.Function, binds []Val) *Closure {
+	if o := fn.Origin(); o != nil {
+		fn = o
+	}
 	key := fmt.Sprintf("fn_%s", sanitize(fn.String()))
 	if len(binds) > 0 {
 		key = freshName(key)
@@ -1144,6 +1252,7 @@ func (r *Run) fieldAddr(st *State, fr *Frame, x *ssa.FieldAddr) Val {
 	if _, ok := f.Type().Underlying().(*types.Struct); ok && isObjectStruct(f.Type()) {
 		nr := e.nestedRef(reg, base)
 		e.nested[nr.S] = &NestedInfo{Owner: key, Field: f.Name(), Base: base, Typ: f.Type()}
+		r.nestedDistinct(st, nr)
 		return nr
 	}
 	var owner *types.Named
@@ -1152,6 +1261,8 @@ func (r *Run) fieldAddr(st *State, fr *Frame, x *ssa.FieldAddr) Val {
 	}
 	return &Addr{Kind: AField, Region: reg, Ref: base, FieldT: f.Type(), Owner: owner, FName: f.Name()}
 }
+
+var typeArgsRe = regexp.MustCompile(`\[[^\]]*\]`)
 
 func namedOf(t types.Type) *types.Named {
 	n, _ := t.(*types.Named)
@@ -1194,6 +1305,33 @@ func (r *Run) subFieldStore(st *State, a *Addr, v Val) {
 		}
 	}
 	st.Cells[a.Cell] = nw
+}
+
+// nestedDistinct: different fields of one object have different addresses, none of them nil.
+func (r *Run) nestedDistinct(st *State, nr T) {
+	e := r.e
+	ni := e.nested[nr.S]
+	if ni == nil {
+		return
+	}
+	if _, seen := st.Facts["nested:"+nr.S]; seen {
+		return
+	}
+	st.Facts["nested:"+nr.S] = ""
+	st.assume(Implies(Not(Eq(ni.Base, NilOf(SRef))), Not(Eq(nr, NilOf(SRef)))))
+	var others []string
+	for k := range e.nested {
+		others = append(others, k)
+	}
+	sort.Strings(others)
+	for _, k := range others {
+		o := e.nested[k]
+		if k != nr.S && o.Base.S == ni.Base.S && (o.Field != ni.Field || o.Owner != ni.Owner) {
+			if _, seen := st.Facts["nested:"+k]; seen {
+				st.assume(Not(Eq(nr, T{k, SRef})))
+			}
+		}
+	}
 }
 
 type NestedInfo struct {
@@ -1869,7 +2007,7 @@ func (r *Run) makeClosure(st *State, fr *Frame, x *ssa.MakeClosure) Val {
 			if m := e.prog.FuncValue(obj); m != nil && m.Pkg == e.pkg && len(m.Blocks) > 0 {
 				bm.Fn = m
 			}
-			bm.Name = strings.ReplaceAll(obj.FullName(), "github.com/joeycumines/go-bigbuff.", "")
+			bm.Name = typeArgsRe.ReplaceAllString(strings.ReplaceAll(obj.FullName(), "github.com/joeycumines/go-bigbuff.", ""), "")
 		}
 		e.methods[term.S] = bm
 		return bm
